@@ -1,5 +1,6 @@
 // finding=F83 property=C04 status=known kind=exec-msl
 // MSL with a bounds-check policy: &arr[i] with a dynamic index passed as a pointer argument becomes `i < N ? arr[i] : DefaultConstructible()`, which cannot bind to a reference parameter
+// option-set policy=2
 // expect 0,0[0] = 8
 @group(0) @binding(0) var<storage,read_write> o: array<u32,16>;
 fn bump(p: ptr<function, u32>) { *p = *p + 1u; }
